@@ -308,7 +308,10 @@ pub fn run_case(case: &Value, out: &mut Out) {
             "detail": id}));
     }
 
-    // read back through the library's reader
+    // read back through the library's reader (structure-only cases stop at the produced bytes)
+    if !case["readback"].as_bool().unwrap_or(true) {
+        return;
+    }
     let mut rs = s.clone();
     rs.seek(SeekFrom::Start(pos)).unwrap();
     let r = guarded(|| Mp4Reader::read_header(rs, end));
